@@ -191,6 +191,7 @@ func (rm *RequestManager) requestTask(requestID graphsync.RequestID) executor.Re
 		InProgressErr:        ipr.inProgressErr,
 		ReconciledLoader:     ipr.reconciledLoader,
 		Empty:                false,
+		PanicCallback:        rm.panicCallback,
 	}
 }
 
